@@ -335,7 +335,7 @@ def check_run(res, fset, n, pathmode, sr, msizes, cv, dl, alll, tier, seed):
             "model_ranges": cv}
     res.evaluations += 1
     if sr.verdict != "ok":
-        res.oracle_failures.append({"what": f"{kind}_parser run failed: {sr.verdict}", "signature": f"{kind}-run-{sr.verdict.split(':')[0]}",
+        res.oracle_failures.append({"what": f"{PARSER[kind]} run failed: {sr.verdict}", "signature": f"{kind}-run-{sr.verdict.split(':')[0]}",
                                     "case": dict(case, stderr=sr.stderr[-400:])})
         return
     per_rank, oracle, fsizes = split_out(sr, n)
@@ -368,7 +368,7 @@ def check_run(res, fset, n, pathmode, sr, msizes, cv, dl, alll, tier, seed):
     if union != seq:
         missing = list((seq - union).items())
         extra = list((union - seq).items())
-        res.oracle_failures.append({"what": f"{kind}_parser::for_all over {n} ranks: {sum(v for _, v in missing)} record(s) never delivered, "
+        res.oracle_failures.append({"what": f"{PARSER[kind]}::for_all over {n} ranks: {sum(v for _, v in missing)} record(s) never delivered, "
                                             f"{sum(v for _, v in extra)} delivered too often / not in the files",
                                     "signature": sig_of(kind, missing, extra),
                                     "case": dict(case, missing=missing[:6], extra=extra[:6])})
@@ -407,6 +407,7 @@ def plan(tier, seed):
 
 
 PATHMODES = ["files", "dir", "dup"]
+PARSER = {"lines": "line_parser", "csv": "csv_parser", "ndjson": "ndjson_parser"}
 
 
 def run(tier, seed, model_ok=True):
